@@ -193,7 +193,7 @@ CHECKS['C06'] = dict(
           'bound, also through an mp pipe watched with connection.wait as the Pool does); real terminate()/SIGKILL on busy and idle workers of '
           'all three kinds.'),
     design='5/C06',
-    note=('Known finding C06-R19 (thread worker on an mp pipe, landing before the end marker is written). EOF delivery is the kernel\'s. The remote '
+    note=('The former known finding R19 (thread worker on an mp pipe, exception landing before the end marker is written) is repaired: terminate() finishes the clean-up; the sweep stands in for the rest of that call after each landing. EOF delivery is the kernel\'s. The remote '
           'forwarder thread (_fetch_results) is exercised by the real terminate/kill cases only. ' + COMMON_NOTE),
     technique='machine-checked proof (Coq) over instruction lists regenerated from the source + line-level injection sweep with a direct oracle',
 )
